@@ -1,0 +1,48 @@
+//go:build verif
+
+// Contracts for package kvm, checked by /verif/govc (comment-only; see /verif/DESIGN.md).
+package kvm
+
+// ---------------------------------------------------------------- C09: abstract world state
+// The StateDB interface is specified over ghost state: balances, nonces, the refund counter and the
+// snapshots taken. *state.StateDB's journal (C08) is what implements it.
+//@ ghost field StateDB.bal gmap[common.Address]mathint
+//@ ghost field StateDB.nonce gmap[common.Address]mathint
+//@ ghost field StateDB.refund mathint
+//@ ghost field StateDB.snapBal gmap[mathint]gmap[common.Address]mathint
+//@ ghost field StateDB.snapNonce gmap[mathint]gmap[common.Address]mathint
+
+//@ trusted func (s StateDB) GetBalance(a common.Address) (r *big.Int)
+//@   ensures r != nil && r.v == s.bal[a] && r.v >= 0
+//@ trusted func (s StateDB) AddBalance(a common.Address, amount *big.Int)
+//@   requires amount != nil
+//@   modifies s.bal
+//@   ensures s.bal == upd(old(s.bal), a, old(s.bal)[a] + amount.v)
+//@ trusted func (s StateDB) SubBalance(a common.Address, amount *big.Int)
+//@   requires amount != nil
+//@   modifies s.bal
+//@   ensures s.bal == upd(old(s.bal), a, old(s.bal)[a] - amount.v)
+//@ trusted func (s StateDB) GetNonce(a common.Address) (r uint64)
+//@   ensures r == s.nonce[a]
+//@ trusted func (s StateDB) SetNonce(a common.Address, n uint64)
+//@   modifies s.nonce
+//@   ensures s.nonce == upd(old(s.nonce), a, n)
+//@ trusted func (s StateDB) GetRefund() (r uint64)
+//@   ensures r == s.refund
+//@ trusted func (s StateDB) Snapshot() (id int)
+//@   modifies s.snapBal, s.snapNonce
+//@   ensures s.snapBal == upd(old(s.snapBal), id, s.bal) && s.snapNonce == upd(old(s.snapNonce), id, s.nonce)
+//@ trusted func (s StateDB) RevertToSnapshot(id int)
+//@   modifies s.bal, s.nonce, s.refund
+//@   ensures s.bal == s.snapBal[id] && s.nonce == s.snapNonce[id]
+
+// The interpreter entry points: gas never grows. What the executed code does to balances is the
+// interpreter's business (assumed to conserve value; DESIGN section 3 C09, assumption A).
+//@ trusted func (kvm *KVM) Call(caller ContractRef, addr common.Address, input []byte, gas uint64, value *big.Int) (ret []byte, leftOverGas uint64, err error)
+//@   modifies StateDB.bal, StateDB.nonce, StateDB.refund, StateDB.snapBal, StateDB.snapNonce
+//@   ensures leftOverGas <= gas
+//@ trusted func (kvm *KVM) Create(caller ContractRef, code []byte, gas uint64, value *big.Int) (ret []byte, contractAddr common.Address, leftOverGas uint64, err error)
+//@   modifies StateDB.bal, StateDB.nonce, StateDB.refund, StateDB.snapBal, StateDB.snapNonce
+//@   ensures leftOverGas <= gas
+//@ trusted func (kvm *KVM) ChainConfig() (r *configs.ChainConfig)
+//@   ensures r == kvm.chainConfig
